@@ -42,7 +42,7 @@ pub struct Lexed {
 }
 
 const MULTI: &[&str] = &[
-    "===", "!==", "...", "->", "=>", "==", "!=", "&&", "||", "::", ":=", "<=", ">=", "?.", "??", "+=", "-=",
+    "===", "!==", "...", "->", "=>", "==", "!=", "&&", "||", "::", ":=", "<=", ">=", "+=", "-=",
 ];
 
 pub fn lex(lang: LangId, src: &str) -> Lexed {
